@@ -1248,7 +1248,12 @@ impl ConfigState {
             tags: front.tags.clone(),
         };
         let before = tcp_frontends.len();
-        if tcp_frontends.contains(&tcp_frontend) {
+        // a frontend is identified by (cluster_id, address): that is what
+        // remove_tcp_frontend removes by, the tags are not part of the identity
+        if tcp_frontends
+            .iter()
+            .any(|front| front.address == tcp_frontend.address)
+        {
             debug_assert_eq!(
                 tcp_frontends.len(),
                 before,
@@ -1319,7 +1324,11 @@ impl ConfigState {
             address: front.address.into(),
             tags: front.tags.clone(),
         };
-        if udp_frontends.contains(&udp_frontend) {
+        // identified by (cluster_id, address), as in remove_udp_frontend
+        if udp_frontends
+            .iter()
+            .any(|front| front.address == udp_frontend.address)
+        {
             return Err(StateError::Exists {
                 kind: ObjectKind::UdpFrontend,
                 id: format!("{udp_frontend:?}"),
